@@ -1,0 +1,20 @@
+//go:build verif
+
+// Contracts for package wmark, checked by /verif (govc). Comment-only.
+package wmark
+
+//@ func Watermarker.AdvanceTime
+//@   property C11
+//@   requires w.allowedLateness >= 0
+//@   modifies w.maxTimestamp
+//@   ensures w.maxTimestamp == ite(eventTimestamp.After(old(w.maxTimestamp)), eventTimestamp, old(w.maxTimestamp))
+//@   ensures !w.maxTimestamp.Before(old(w.maxTimestamp)) && !w.maxTimestamp.Before(eventTimestamp)
+//@   ensures !w.CurrentWatermark().Before(old(w.CurrentWatermark()))
+//@   ensures w.CurrentWatermark().Before(w.maxTimestamp)
+
+//@ func Watermarker.CurrentWatermark
+//@   property C11
+//@   requires w.allowedLateness >= 0
+//@   ensures result == w.maxTimestamp.Add(-(w.allowedLateness + 1))
+//@   ensures result.Before(w.maxTimestamp)
+//@   ensures w.maxTimestamp.Sub(result) == w.allowedLateness + 1
